@@ -358,6 +358,7 @@ func runSamples() {
 		if err != nil || (len(cfg.Servers) == 0 && len(cfg.ClusterManager.Clusters) == 0 && len(cfg.RawStaticResources) == 0) {
 			continue // not a MOSN configuration document
 		}
+		disarmAgents(path)
 		wd, _ := os.Getwd()
 		os.Chdir(dir)
 		tr.Emit(vh.Ev{"ev": "case", "id": i, "t": "sample", "a": map[string]string{}, "fmt": strings.TrimPrefix(filepath.Ext(p), "."), "path": rel})
@@ -366,4 +367,40 @@ func runSamples() {
 	}
 	mark(-1)
 	fmt.Printf("samples=%d\n", len(files))
+}
+
+// disarmAgents switches off extends that start network clients of their own in background goroutines
+// (the tunnel agent dials its servers and ends the process when its certificates cannot be read):
+// "enable": true -> false in the scratch copy of a JSON sample. Everything else is left as shipped.
+func disarmAgents(path string) {
+	if filepath.Ext(path) != ".json" {
+		return
+	}
+	b, err := ioutil.ReadFile(path)
+	if err != nil {
+		return
+	}
+	var doc map[string]interface{}
+	d := json.NewDecoder(strings.NewReader(string(b)))
+	d.UseNumber()
+	if d.Decode(&doc) != nil {
+		return
+	}
+	exts, _ := doc["extends"].([]interface{})
+	changed := false
+	for _, e := range exts {
+		eo, _ := e.(map[string]interface{})
+		if eo == nil || eo["type"] != "tunnel_agent" {
+			continue
+		}
+		if c, ok := eo["config"].(map[string]interface{}); ok && c["enable"] == true {
+			c["enable"] = false
+			changed = true
+		}
+	}
+	if changed {
+		if nb, err := json.MarshalIndent(doc, "", "  "); err == nil {
+			ioutil.WriteFile(path, nb, 0644)
+		}
+	}
 }
